@@ -152,6 +152,10 @@ def operand_status(kind, v):
         if v < lo or v > hi or v % scale != 0 or (nz and v == 0):
             return REJECT, None
         return ACCEPT, v
+    if kind == 'nzshamt' and isinstance(v, str):
+        # RVC shift amounts are immediates (integers); a textual one is not a documented operand type
+        n = regnum(v) if v not in REG_NAMES else None
+        return (UNSPEC, n) if n else (REJECT, None)
     if kind in ('shamt', 'nzshamt', 'uimm5'):
         n = regnum(v)          # written as a number 0..31 (the assembler also reads register spellings here)
         if n is None:
